@@ -912,7 +912,7 @@ def run(ck):
     ck.props()
     rnd = random.Random(ck.seed)
     g = Gen(rnd)
-    scale = 1 if ck.tier == "quick" else 25
+    scale = 1 if ck.tier == "quick" else 12
     codec_cls = codec()
 
     # ---- 1. encoders: bytes equality, then both grammar parsers on the implementation's bytes
